@@ -77,6 +77,34 @@ int32_t psPemTryDecode(psPool_t *pool,
 
 # ifdef USE_PEM_DECODE
 
+/* The PEM parsing functions receive their input as (pointer, length) and the
+   buffer is not necessarily NUL-terminated (e.g. const arrays passed to
+   matrixSslLoadKeysMem), so Strstr() must not be used on it. This is a
+   bounded replacement: search [hay, hayEnd) for needle, stopping at a NUL
+   like Strstr() would. */
+static char *pemStrnstr(const char *hay, const char *hayEnd,
+        const char *needle)
+{
+    size_t needleLen = Strlen(needle);
+
+    if (hay == NULL || hayEnd == NULL)
+    {
+        return NULL;
+    }
+    for (; hay < hayEnd && *hay != '\0'; hay++)
+    {
+        if ((size_t) (hayEnd - hay) < needleLen)
+        {
+            return NULL;
+        }
+        if (Memcmp(hay, needle, needleLen) == 0)
+        {
+            return (char *) hay;
+        }
+    }
+    return NULL;
+}
+
 psBool_t psPemCheckOk(const unsigned char *pemBuf,
         psSizeL_t pemBufLen,
         psPemType_t pemType,
@@ -85,12 +113,14 @@ psBool_t psPemCheckOk(const unsigned char *pemBuf,
         psSizeL_t *pemlen)
 {
     char *start, *end;
+    const char *pem = (const char *) pemBuf;
+    const char *pemEnd = pem + pemBufLen;
 
     /* Check header and encryption parameters. */
-    if (((start = Strstr((char *) pemBuf, "-----BEGIN")) != NULL) &&
-            ((start = Strstr((char *) pemBuf, "PRIVATE KEY-----")) != NULL) &&
-            ((end = Strstr(start, "-----END")) != NULL) &&
-            (Strstr(end, "PRIVATE KEY-----") != NULL))
+    if (((start = pemStrnstr(pem, pemEnd, "-----BEGIN")) != NULL) &&
+            ((start = pemStrnstr(pem, pemEnd, "PRIVATE KEY-----")) != NULL) &&
+            ((end = pemStrnstr(start, pemEnd, "-----END")) != NULL) &&
+            (pemStrnstr(end, pemEnd, "PRIVATE KEY-----") != NULL))
     {
         if (pemType != PEM_TYPE_KEY &&
                 pemType != PEM_TYPE_PRIVATE_KEY &&
@@ -99,15 +129,15 @@ psBool_t psPemCheckOk(const unsigned char *pemBuf,
             return PS_FALSE;
         }
         start += Strlen("PRIVATE KEY-----");
-        while (*start == '\x0d' || *start == '\x0a')
+        while (start < end && (*start == '\x0d' || *start == '\x0a'))
         {
             start++;
         }
     }
-    else if (((start = Strstr((char *) pemBuf, "-----BEGIN")) != NULL) &&
-            ((start = Strstr((char *) pemBuf, "PUBLIC KEY-----")) != NULL) &&
-            ((end = Strstr(start, "-----END")) != NULL) &&
-            (Strstr(end, "PUBLIC KEY-----") != NULL))
+    else if (((start = pemStrnstr(pem, pemEnd, "-----BEGIN")) != NULL) &&
+            ((start = pemStrnstr(pem, pemEnd, "PUBLIC KEY-----")) != NULL) &&
+            ((end = pemStrnstr(start, pemEnd, "-----END")) != NULL) &&
+            (pemStrnstr(end, pemEnd, "PUBLIC KEY-----") != NULL))
     {
         if (pemType != PEM_TYPE_PUBLIC_KEY &&
                 pemType != PEM_TYPE_KEY &&
@@ -116,15 +146,15 @@ psBool_t psPemCheckOk(const unsigned char *pemBuf,
             return PS_FALSE;
         }
         start += Strlen("PUBLIC KEY-----");
-        while (*start == '\x0d' || *start == '\x0a')
+        while (start < end && (*start == '\x0d' || *start == '\x0a'))
         {
             start++;
         }
     }
-    else if (((start = Strstr((char *) pemBuf, "-----BEGIN")) != NULL) &&
-            ((start = Strstr((char *) pemBuf, "CERTIFICATE-----")) != NULL) &&
-            ((end = Strstr(start, "-----END")) != NULL) &&
-            (Strstr(end, "CERTIFICATE-----") != NULL))
+    else if (((start = pemStrnstr(pem, pemEnd, "-----BEGIN")) != NULL) &&
+            ((start = pemStrnstr(pem, pemEnd, "CERTIFICATE-----")) != NULL) &&
+            ((end = pemStrnstr(start, pemEnd, "-----END")) != NULL) &&
+            (pemStrnstr(end, pemEnd, "CERTIFICATE-----") != NULL))
     {
         if (pemType != PEM_TYPE_CERTIFICATE &&
                 pemType != PEM_TYPE_ANY)
@@ -133,13 +163,19 @@ psBool_t psPemCheckOk(const unsigned char *pemBuf,
         }
 
         start += Strlen("CERTIFICATE-----");
-        while (*start == '\x0d' || *start == '\x0a')
+        while (start < end && (*start == '\x0d' || *start == '\x0a'))
         {
             start++;
         }
     }
     else
     {
+        return PS_FALSE;
+    }
+
+    if (start > end)
+    {
+        /* "-----END" overlaps the header line: no body. */
         return PS_FALSE;
     }
 
@@ -176,7 +212,7 @@ int32_t psPemDecode(psPool_t *pool,
     char *start, *end;
     int32 rc;
     psSizeL_t PEMlen = 0;
-    const char *keyBuf;
+    const char *keyBuf, *keyBufEnd;
     psSize_t outlenPsSize;
 
     start = end = NULL;
@@ -193,8 +229,9 @@ int32_t psPemDecode(psPool_t *pool,
     }
 
     keyBuf = (const char *)keyBufIn;
-    if (Strstr((char *) keyBuf, "Proc-Type:") &&
-        Strstr((char *) keyBuf, "4,ENCRYPTED"))
+    keyBufEnd = keyBuf + keyBufLen;
+    if (pemStrnstr(keyBuf, keyBufEnd, "Proc-Type:") &&
+        pemStrnstr(keyBuf, keyBufEnd, "4,ENCRYPTED"))
     {
 #  if defined(USE_PKCS5) && defined(USE_PBKDF1)
         if (password == NULL)
@@ -202,19 +239,29 @@ int32_t psPemDecode(psPool_t *pool,
             psTraceCrypto("No password given for encrypted private key file\n");
             return PS_ARG_FAIL;
         }
-        if ((start = Strstr((char *) keyBuf, des3encryptHeader)) != NULL)
+        if ((start = pemStrnstr(keyBuf, keyBufEnd, des3encryptHeader)) != NULL)
         {
             start += Strlen(des3encryptHeader);
             encrypted = 1;
-            /* we assume here that header points to at least 16 bytes of data */
+            /* the header must be followed by 16 hex characters of IV */
+            if (start > end || (end - start) < 2 * DES3_IVLEN)
+            {
+                psTraceCrypto("Invalid private key file salt\n");
+                return PS_PARSE_FAIL;
+            }
             tmp = psHexToBinary((unsigned char *) start, cipherIV, DES3_IVLEN);
         }
-        else if ((start = Strstr((char *) keyBuf, aes128encryptHeader))
+        else if ((start = pemStrnstr(keyBuf, keyBufEnd, aes128encryptHeader))
                  != NULL)
         {
             start += Strlen(aes128encryptHeader);
             encrypted = 2;
-            /* we assume here that header points to at least 32 bytes of data */
+            /* the header must be followed by 32 hex characters of IV */
+            if (start > end || (end - start) < 2 * 16)
+            {
+                psTraceCrypto("Invalid private key file salt\n");
+                return PS_PARSE_FAIL;
+            }
             tmp = psHexToBinary((unsigned char *) start, cipherIV, 16);
         }
         else
@@ -303,6 +350,7 @@ psRes_t psPemCertBufToList(psPool_t *pool,
     psList_t *front, *prev, *current;
     unsigned char *start, *end, *endTmp;
     const unsigned char *chFileBuf;
+    const char *bufEnd;
     unsigned char l;
     int n = 0;
     int32_t rc;
@@ -314,6 +362,7 @@ psRes_t psPemCertBufToList(psPool_t *pool,
         psTraceCrypto("Bad parameters to pemCertBufToList\n");
         return PS_ARG_FAIL;
     }
+    bufEnd = (const char *) buf + len;
     front = current = psMalloc(pool, sizeof(psList_t));
     if (current == NULL)
     {
@@ -326,10 +375,10 @@ psRes_t psPemCertBufToList(psPool_t *pool,
     while (len > 0)
     {
         if (
-            ((start = (unsigned char *) Strstr((char *) chFileBuf, "-----BEGIN")) != NULL) &&
-            ((start = (unsigned char *) Strstr((char *) chFileBuf, "CERTIFICATE-----")) != NULL) &&
-            ((end = (unsigned char *) Strstr((char *) start, "-----END")) != NULL) &&
-            ((endTmp = (unsigned char *) Strstr((char *) end, "CERTIFICATE-----")) != NULL)
+            ((start = (unsigned char *) pemStrnstr((char *) chFileBuf, bufEnd, "-----BEGIN")) != NULL) &&
+            ((start = (unsigned char *) pemStrnstr((char *) chFileBuf, bufEnd, "CERTIFICATE-----")) != NULL) &&
+            ((end = (unsigned char *) pemStrnstr((char *) start, bufEnd, "-----END")) != NULL) &&
+            ((endTmp = (unsigned char *) pemStrnstr((char *) end, bufEnd, "CERTIFICATE-----")) != NULL)
             )
         {
             n++;
@@ -348,8 +397,9 @@ psRes_t psPemCertBufToList(psPool_t *pool,
             }
             current->len = (uint16_t) (end - start);
             end = endTmp + l;
-            while (*end == '\x0d' || *end == '\x0a' || *end == '\x09'
-                   || *end == ' ')
+            while ((const char *) end < bufEnd &&
+                   (*end == '\x0d' || *end == '\x0a' || *end == '\x09'
+                    || *end == ' '))
             {
                 end++;
             }
